@@ -86,7 +86,8 @@ Lemma needs_size_partial lim mt evs x :
   needs lim mt CSize evs x.
 Proof.
   intros Hx Hf Hlf Hlen. exists (mkP (PChunked CSize) x [] mt), evs. split.
-  - unfold too_long. cbn [pk ctail]. destruct x; [congruence|]. lia.
+  - unfold too_long. cbn [pk ctail]. destruct x as [|x0 x]; [congruence|].
+    pose proof (tail_len_le chunk_tail_check_discounts_cr (x0 :: x)). lia.
   - intros f Hf'. destruct f as [|f]; [lia|]. rewrite cloop_S.
     destruct x as [|a r]; [congruence|]. cbn [step_c]. rewrite Hf, Hlf. reflexivity.
 Qed.
@@ -145,7 +146,7 @@ Proof.
         destruct (lenN d - lenN x1 =? 0) eqn:E0; [lia|]. reflexivity.
     + (* x1 = d CR *)
       exists (mkP (PChunked CDataEnd) [13] [] mt), (ev_chunk_end (ev_data d evs)). split.
-      { unfold too_long. cbn [pk ctail]. change (lenN [13]) with 1. lia. }
+      { unfold too_long. cbn [pk ctail]. pose proof (tail_len_le chunk_tail_check_discounts_cr [13]) as Htl13. change (lenN [13]) with 1 in Htl13. lia. }
       intros f Hf. destruct f as [|f]; [lia|]. rewrite Hstep.
       destruct f as [|f]; [rewrite !app_length in Hf; cbn [length] in Hf; lia|].
       rewrite cloop_S, step_c_data_full by exact Hd.
@@ -175,7 +176,7 @@ Proof.
   cbn [app] in E. inversion E; subst a. clear E. rename H3 into E.
   destruct x as [|a x].
   { exists (mkP (PChunked CTrailers) [13] [] mt), evs. split.
-    { unfold too_long. cbn [pk ctail]. change (lenN [13]) with 1. lia. }
+    { unfold too_long. cbn [pk ctail]. pose proof (tail_len_le chunk_tail_check_discounts_cr [13]) as Htl13. change (lenN [13]) with 1 in Htl13. lia. }
     intros f Hf. destruct f as [|f]; [lia|]. rewrite Hs.
     destruct f as [|f]; [cbn [length] in Hf; lia|]. rewrite cloop_S. reflexivity. }
   cbn [app] in E. inversion E; subst a. destruct x; [|discriminate]. cbn [app] in H3. congruence.
